@@ -49,6 +49,14 @@ class Ctx:
         self.rule_docs = {}
         self.extra = {}
         self.trusted = []
+        self.analysis_errors = []
+
+    def each(self, fn, *args):
+        """Run one rule; an unrecognised construct in it must not hide the verdicts of the other rules."""
+        try:
+            return fn(*args)
+        except AnalysisError as e:
+            self.analysis_errors.append("%s: %s" % (getattr(fn, "__name__", "rule"), e))
 
     # -- bookkeeping
     def rule(self, rule_id, doc):
@@ -150,6 +158,7 @@ def finalize(ctx, t0, level="other", explanation="", assumptions=None, write=Tru
         "samples": samples[:40],
         "all_obligations": ctx.obligations if ctx.tier == "thorough" else ctx.obligations[:200],
         "known_findings": [f.as_dict() for f in listed],
+        "analysis_errors": ctx.analysis_errors,
         "notes": ctx.notes,
         "trusted_base": ["CPython %s ast" % ".".join(map(str, __import__("sys").version_info[:3])), "networkx dominators/toposort", "idiom and dimension tables in /verif/atomica_sa/rules"] + ctx.trusted,
         "exhaustive": False,
@@ -172,6 +181,8 @@ def finalize(ctx, t0, level="other", explanation="", assumptions=None, write=Tru
     for f in listed:
         print("KNOWN-FINDING: property=%s %s %s:%s [%s] %s" % (ctx.prop, f.rule, f.module, f.function, f.stmt[:80], f.message))
     print("%s: %d obligations, %d discharged, %d known, %d new; rules %s" % (ctx.prop, n_ob, n_ok, len(listed), len(new), " ".join("%s=%d" % kv for kv in sorted(ctx.instances.items()))))
+    for e in ctx.analysis_errors:
+        print("ANALYSIS-ERROR property=%s %s" % (ctx.prop, e))
     if new:
         replay = evidence_dir / "replay" / ("%s.json" % ctx.prop)
         replay.write_text(json.dumps([f.as_dict() for f in new], indent=1))
@@ -179,4 +190,4 @@ def finalize(ctx, t0, level="other", explanation="", assumptions=None, write=Tru
             print("  FINDING %s %s:%s %s\n          stmt: %s\n          %s" % (f.rule, f.module, f.line, f.function, f.stmt[:160], f.message))
         print("VIOLATION property=%s replay=%s" % (ctx.prop, replay))
         return 1
-    return 0
+    return 2 if ctx.analysis_errors else 0
